@@ -196,6 +196,12 @@ func switchSuite() []swModel {
 	add("class at the first code point", "'\\x00' 'x' / [\\x01-\\x02] 'y' / [c-f] 'z'", func(m *model) *Obj {
 		return m.alt(m.seq(m.char("\x00"), m.char("x")), m.seq(m.rng("\x01", "\x02"), m.char("y")), m.seq(m.rng("c", "f"), m.char("z")))
 	})
+	add("alternative that can never match", "[z-a] 'x' / 'b' 'y' / 'c' 'z'  (inverted range)", func(m *model) *Obj {
+		return m.alt(m.seq(m.rng("z", "a"), m.char("x")), m.seq(m.char("b"), m.char("y")), m.seq(m.char("c"), m.char("z")))
+	})
+	add("alternative that can never match", "'b' 'y' / [z-a] e / 'c' 'z' / [q-p]", func(m *model) *Obj {
+		return m.alt(m.seq(m.char("b"), m.char("y")), m.seq(m.rng("z", "a"), e(m)), m.seq(m.char("c"), m.char("z")), m.rng("q", "p"))
+	})
 	add("no rewrite (dot intersects)", "'a' e / 'b' e / . e", func(m *model) *Obj {
 		return m.alt(m.seq(m.char("a"), e(m)), m.seq(m.char("b"), e(m)), m.seq(m.dot(), e(m)))
 	})
